@@ -21,7 +21,7 @@
 From stdpp Require Import gmap.
 From BV Require Import Common.Base Common.Tx.
 
-Definition loc := nat.
+Notation loc := nat (only parsing).
 
 Inductive seqref := STuple (ls : list loc) | SList (l : loc).
 Inductive body :=
